@@ -18,6 +18,8 @@ A case is a plain JSON-able dict (floats as Python floats: json round-trips them
   types     (typed cases, gen_typed) the numeric TYPE of every number handed to the library and the
             ROUTE by which the uncertainties reach the measurements; all numbers of such a case are
             whole (or multiples of 1/4), so every type represents them exactly -- see TYPE NOTES
+  faults    rejected requests sent with the case's own data objects BEFORE the judged fit (FAULT NOTES)
+  equal_params  the generating parameters (= the exact guess of noise-free data) are equal (EQUAL NOTES)
   rep       (gen_repeated) y (and x) points recorded as repeated measurements: the readings, how
             value and uncertainty are chosen; case["y"] / case["yerr"] are the value and the
             uncertainty of each point as the harness computes them from the readings
@@ -359,6 +361,144 @@ def gen_parnames(rng, m):
     return list(rng.choice(pools)[:m])
 
 
+# ---------------------------------------------------------------------------------------------
+# FAULT NOTES (requests that are rejected BEFORE the judged fit).  Wherever the data are objects of
+# the caller (MeasurementArrays, numpy arrays, the lists themselves) the fit API takes uncertainties
+# by keyword and writes them onto those objects.  A request that is rejected must leave them as they
+# were: the next, ordinary fit of the same objects is the weighted optimum for the data the user
+# HAS.  case["faults"] is a list of [entry, kind, other]:
+#   entry  "fit" (q.fit(x, y, model, xerr=, yerr=)) | "fit-kw" (xdata=, ydata= keywords) |
+#          "xyds" (q.XYDataSet(x, y, xerr=, yerr=)) | "xyds-kw"
+#   kind   which side is invalid and how: "<side>-short" / "<side>-long" (a list of the wrong
+#          length), "<side>-negative" (one negative entry), "<side>-negative-scalar", side = yerr | xerr
+#   other  the VALID uncertainty given for the other side in the same request (a number, a list, or
+#          None): the part of the request that a library may already have carried out
+# Must-be-rejected is decided here (wrong length / a negative uncertainty); a request the library
+# accepts is logged as "accepted" and the case is counted as skipped, not judged.
+FAULT_ENTRIES = ("fit", "fit-kw", "xyds", "xyds-kw")
+FAULT_KINDS = ("yerr-short", "yerr-long", "yerr-negative", "yerr-negative-scalar",
+               "xerr-short", "xerr-long", "xerr-negative", "xerr-negative-scalar")
+FAULT_FORMS = ("marrays", "xyds.marrays", "arrays", "lists")
+
+
+def gen_faults(rng, case, entry=None, kind=None, count=None):
+    """rejected requests on the case's own data objects, in units of the case's data"""
+    n = len(case["x"])
+    dx = (max(case["x"]) - min(case["x"])) / n
+    ymag = max(abs(v) for v in case["y"]) or 1.0
+    out = []
+    for k in range(count or rng.choice([1, 1, 2])):
+        kd = kind if (kind and k == 0) else rng.choice(FAULT_KINDS)
+        side = kd[:4]
+        # the valid part: of the size of the spacing of the points / a few per cent of y (large
+        # against the case's own uncertainties, so that a request carried out half-way is visible)
+        if side == "yerr":
+            v = dx * rng.uniform(0.5, 2.0)
+        else:
+            v = 0.05 * ymag * rng.uniform(0.5, 2.0)
+        t = rng.random()
+        other = None if t < 0.1 else v if t < 0.6 else [v * (1 + 0.5 * (i % 3)) for i in range(n)]
+        out.append([entry if (entry and k == 0) else rng.choice(FAULT_ENTRIES), kd, other])
+    return out
+
+
+def add_faults(rng, case, **kw):
+    case["faults"] = gen_faults(rng, case, **kw)
+    return case
+
+
+def fault_request(case, fault):
+    """-> (entry, xerr, yerr) of a request the harness knows must be rejected"""
+    entry, kind, other = fault
+    n = len(case["x"])
+    side, _, how = kind.partition("-")
+    base = (0.05 * (max(abs(v) for v in case["y"]) or 1.0)) if side == "yerr" else \
+        0.1 * (max(case["x"]) - min(case["x"])) / n
+    if how == "short":
+        bad = [base] * (n - 1)
+    elif how == "long":
+        bad = [base] * (n + 1)
+    elif how == "negative":
+        bad = [base] * n
+        bad[(n // 2) if n % 2 else 0] = -base
+    elif how == "negative-scalar":
+        bad = -base
+    else:
+        raise KeyError(kind)
+    return (entry, other, bad) if side == "yerr" else (entry, bad, other)
+
+
+def apply_faults(q, case, xa, ya, model, log):
+    """send the rejected requests of the case with the caller's data objects xa, ya"""
+    for fault in case.get("faults") or []:
+        entry, xerr, yerr = fault_request(case, fault)
+        ek = {}
+        if xerr is not None:
+            ek["xerr"] = xerr
+        if yerr is not None:
+            ek["yerr"] = yerr
+        try:
+            if entry == "fit":
+                q.fit(xa, ya, model, **ek)
+            elif entry == "fit-kw":
+                q.fit(xdata=xa, ydata=ya, model=model, **ek)
+            elif entry == "xyds":
+                q.XYDataSet(xa, ya, **ek)
+            elif entry == "xyds-kw":
+                q.XYDataSet(xdata=xa, ydata=ya, **ek)
+            else:
+                raise KeyError(entry)
+            log.append([entry, fault[1], "accepted"])
+        except KeyError:
+            raise
+        except Exception as e:  # noqa: BLE001  (the request is invalid: any rejection will do)
+            log.append([entry, fault[1], type(e).__name__])
+
+
+# EQUAL NOTES.  Two parameters of one fit may come out with EXACTLY the same central value (slope
+# and intercept both 2.0).  They are still different quantities with the covariance the fit found.
+# Such results are produced deliberately: a user model that is a polynomial in x (exact arithmetic
+# on a grid of halves with parameters in quarters), noise-free data and the exact guess -- the
+# residual vector is exactly 0, so the optimiser returns the guess bit for bit.  Variants: all
+# parameters equal; exactly two of three equal; equal magnitude with opposite sign (the near miss).
+# Excluded, with the reason: the pre-set exponential / Gaussian and the transcendental user models --
+# the harness's math.exp and numpy's exp may differ in the last bit, the residual is then not
+# exactly 0 and the optimiser moves the parameters apart in the last bits; polyfit never returns
+# exactly equal coefficients.
+EQUAL_VARIANTS = ("all", "all", "pair", "negated")
+
+
+def gen_equal_params(rng, family=None, variant=None, form=None, sy=None):
+    family = family or rng.choice(POLY_LIKE)
+    variant = variant or rng.choice(EQUAL_VARIANTS)
+    case = gen_case(rng, family=family, noise_free=True, sx="none", sy=sy or rng.choice(["common", "point"]),
+                    want_range=False, form=form)
+    m = n_params(case)
+    v = rng.choice([2.0, 1.0, 0.5, 3.0, -1.5, 1.25, -2.0])
+    ptrue = [v] * m
+    if variant == "negated":
+        ptrue[rng.randrange(m)] = -v
+    elif variant == "pair" and m >= 3:
+        ptrue[rng.randrange(m)] = v + rng.choice([0.25, -0.5, 1.0])
+    n = rng.randint(m + 4, 14)
+    grid = [k * 0.5 for k in range(-6, 13)]
+    rng.shuffle(grid)
+    xs = grid[:n]
+    if rng.random() < 0.5:
+        xs.sort()
+    f = ref_fn(case)
+    ys = [f(x, *ptrue) for x in xs]
+    ymag = max(abs(y) for y in ys) or 1.0
+    s0 = 2.0 ** round(math.log2(0.05 * ymag))
+    yerr = s0 if case["sy"] == "common" else [s0 * (1 + (i % 3)) for i in range(n)]
+    case.update({"x": xs, "y": ys, "xerr": None, "yerr": yerr, "ptrue": list(ptrue),
+                 "parguess": list(ptrue), "equal_params": variant, "noise_free": True,
+                 "xs": [rng.choice(grid) + rng.choice([0.0, 0.25]) for _ in range(4)],
+                 "pscale": [1.0] * m, "xrange": None})
+    case.pop("xerr_edit", None)
+    return case
+
+
 SCALES = (1e-12, 1e-6, 1e-3, 1.0, 1e3, 1e6, 1e12)
 
 
@@ -643,7 +783,9 @@ def call_fit(q, case, drop_xerr=False, use_range=True, holder=None):
         ek["xerr"] = xerr
     if yerr is not None:
         ek["yerr"] = yerr
+    flog = holder.setdefault("fault_log", []) if holder is not None else []
     if form in ("lists", "enum"):
+        apply_faults(q, case, x, y, model, flog)
         return q.fit(x, y, model, **ek, **kw)
     if form == "plot.fit":
         import qexpy.plotting as qplt
@@ -653,7 +795,9 @@ def call_fit(q, case, drop_xerr=False, use_range=True, holder=None):
         return fig.fit(model, **kw) if len(x) % 3 else fig.fit(model=model, **kw)
     if form == "arrays":
         ek = {k: (np.array(v) if isinstance(v, list) else v) for k, v in ek.items()}
-        return q.fit(np.array(x), np.array(y), model, **ek, **kw)
+        xn, yn = np.array(x), np.array(y)
+        apply_faults(q, case, xn, yn, model, flog)
+        return q.fit(xn, yn, model, **ek, **kw)
     ed = None if drop_xerr else case.get("xerr_edit")
 
     def edit(arr):
@@ -672,6 +816,7 @@ def call_fit(q, case, drop_xerr=False, use_range=True, holder=None):
         else:
             xa = q.MeasurementArray(x, xerr) if xerr is not None else q.MeasurementArray(x)
         ya = q.MeasurementArray(y, yerr) if yerr is not None else q.MeasurementArray(y)
+        apply_faults(q, case, xa, ya, model, flog)
         return q.fit(xa, ya, model, **kw)
     if form in ("xyds", "xyds.fit") and ed:
         ds = q.XYDataSet(x, y, **dict(ek, xerr=ed["common"]))
@@ -684,6 +829,7 @@ def call_fit(q, case, drop_xerr=False, use_range=True, holder=None):
             xa = q.MeasurementArray(x, xerr) if xerr is not None else q.MeasurementArray(x)
         if form == "xyds.marrays":
             ya = q.MeasurementArray(y, yerr) if yerr is not None else q.MeasurementArray(y)
+            apply_faults(q, case, xa, ya, model, flog)
             ds = q.XYDataSet(xa, ya)
             return q.fit(ds, model, **kw) if len(x) % 2 else ds.fit(model, **kw)
         if len(x) % 2:
@@ -1549,6 +1695,9 @@ def observe(q, case, drop_xerr=False, full=True, use_range=True):
         try:
             np.random.seed(case.get("npseed", 20240229))
             r = call_fit(q, case, drop_xerr=drop_xerr, use_range=use_range, holder=holder)
+            if holder.get("fault_log"):
+                out["fault_log"] = holder.pop("fault_log")
+            holder.pop("fault_log", None)
             ps = r.params
             m = len(ps)
             out["popt"] = [float(p.value) for p in ps]
